@@ -286,6 +286,7 @@ class Exec:
             ref = self.ref[bool(f.get("log_times"))]
             init = f.get("initial", "absent")
             p = self.path(fname)
+            os.makedirs(os.path.dirname(p), exist_ok=True)
             if init == "absent":
                 continue
             lines = []
@@ -335,7 +336,7 @@ class Exec:
             else:
                 self.reported[(t.ctx.get("file"), t.ctx.get("subject"))] = rep
 
-    def _session_main(self, sess, group):
+    def _session_main(self, sess, group, inline=False):
         s = self.sched
         agg_mod = MODS["agg"]
         plan = self.plan
@@ -361,6 +362,10 @@ class Exec:
                 # ".tsv") - the file it must produce is `fname` either way
                 target = os.path.join(self.work, f.get("given", fname))
                 spelling = sess.get("spelling")
+                if sess.get("isolated"):
+                    # spelled relative to the session's own working directory
+                    spelling = "isolated"
+                    target = os.path.relpath(target, os.path.join(self.work, sess["isolated"]["cwd"]))
                 if spelling == "symlink" and plan["knobs"].get("symlink"):
                     target = os.path.join(self.root, "lnk", f.get("given", fname))
                 elif spelling == "dotted":
@@ -409,6 +414,11 @@ class Exec:
                 self._main_stat(sess, aggs, "before")
             mode = plan["knobs"].get("mode")
             lazy = plan["knobs"].get("fork_at") == "first_run"
+            if inline:
+                for ops in sess["tasks"]:
+                    self._worker(sess, aggs, ops, "threads")
+                run_atexit(group)
+                return True
             for i, ops in enumerate(sess["tasks"]):
                 # "mixed": the same aggregator is used from threads and from forked workers at once
                 wmode = mode if mode != "mixed" else ("threads", "procs", "forked")[(plan["seed"] + i) % 3]
@@ -483,7 +493,15 @@ class Exec:
                         _reimport_module_level_locks()
                         rs.send(("note", "worker_spawned_fresh_locks", 1))
                     rs.wait_go()
-                    self._worker(sess, aggs, ops, wmode)
+                    if wmode == "isolated":
+                        cwd = os.path.join(self.work, sess["isolated"]["cwd"])
+                        WORLD.armed = False
+                        os.makedirs(cwd, exist_ok=True)
+                        WORLD.armed = True
+                        os.chdir(cwd)
+                        self._session_main(sess, rs.current.group, inline=True)
+                    else:
+                        self._worker(sess, aggs, ops, wmode)
                 except SimInterrupt:
                     exc = ("SimInterrupt", "", "")
                 except BaseException as e:  # noqa: BLE001 - what the code under test raises is data
@@ -765,9 +783,10 @@ class Exec:
     def _on_point(self, s, t, kind, detail):
         if kind in ("write", "unlink", "lock.acquired", "lock.release", "openat"):
             st = []
-            for fname in sorted(os.listdir(self.work)):
-                b = model.read_bytes(os.path.join(self.work, fname))
-                st.append((fname, hashlib.sha256(b or b"").hexdigest()[:12]))
+            for dirpath, _dirs, fnames in sorted(os.walk(self.work)):
+                for fname in sorted(fnames):
+                    b = model.read_bytes(os.path.join(dirpath, fname))
+                    st.append((os.path.relpath(os.path.join(dirpath, fname), self.work), hashlib.sha256(b or b"").hexdigest()[:12]))
             owners = sorted((str(k), None if v["owner"] is None else v["owner"].name) for k, v in s.lockstate.items())
             self.states.add(_h(st, owners))
 
@@ -823,7 +842,14 @@ class Exec:
         for sess in phase["sessions"]:
             g = s.new_group(sess["group"])
             g.meta["sess"] = sess
-            mains.append(s.spawn(f"{g.name}.main", g, self._session_main, sess, g))
+            if sess.get("isolated"):
+                # an unrelated script: its own operating-system process (forked now, from the still
+                # pristine phase image), its own working directory, one sequential task
+                cmd_w, msg_r, pid = self._fork_worker(g, f"{g.name}.main", len(s.tasks), sess, None, None, "isolated")
+                mains.append(s.spawn(f"{g.name}.main", g, self._proxy, cmd_w, msg_r, pid))
+                self.note("isolated_session_process")
+            else:
+                mains.append(s.spawn(f"{g.name}.main", g, self._session_main, sess, g))
             if sess.get("end") == "kill" and sess.get("fault_step"):
                 s.kills[int(sess["fault_step"])] = g.gid
             elif sess.get("end") == "interrupt" and sess.get("fault_step"):
